@@ -275,6 +275,59 @@ def run_history(binfo, scratch, variant, plan, hist, cpu=150, name=None, envpad=
     return res
 
 
+# ---- program-driven histories ----------------------------------------------------------
+# The request sequence of a real program (compiled and linked with the rebuilt runtime, or
+# interpreted inside the compiler) is a legal history too, with the size and lifetime patterns
+# that random histories lack.  The simulator audits the allocator at seeded allocation indices
+# and around forced collections; the oracle here is the audit alone (what the program prints
+# is C09's business).
+_EXE = {}
+
+
+def program_world(binfo, scratch, name, text, q, route, plan):
+    """Returns (violation class or None, detail)."""
+    from checks import c09
+    prog = {"name": name, "text": text, "q": q}
+    if route == "exe":
+        key = (name, q)
+        if key not in _EXE:
+            _EXE[key] = c09.build_exe(binfo, scratch, name, text, q, "-O1")
+        d, msg = _EXE[key]
+        if not d:
+            return None, "not built: " + msg[-100:]
+        prog["exe_dir"] = d
+    r = c09.run_prog(binfo, scratch, prog, route, plan)
+    if r.timeout:
+        return None, "over the CPU budget (inconclusive)"
+    a = ASSERT.search(r.err.decode("latin-1", "replace"))
+    if a and "store.c" in r.err.decode("latin-1", "replace"):
+        return "audit", "assertion: " + a.group(1).strip()
+    return None, "audits=%d" % vsim.parse_log(r.log)["z"].get("audits", 0)
+
+
+def program_cases(seed, tier):
+    import progen
+    out = []
+    nprog = 4 if tier == "quick" else 24
+    nplan = 5 if tier == "quick" else 12
+    for g in range(nprog):
+        rng = vsim.Rng(seed, "c10-prog", g)
+        text = progen.gen_program(rng.fork("src"), size="small" if g % 2 else "heavy",
+                                  force=(("sizes",) if g % 4 == 0 else (("frag",) if g % 4 == 2 else ()))).encode()
+        q = rng.choice(["-Q1", "-Q2", "-Q3"])
+        for k in range(nplan):
+            route = "exe" if k % 3 else "interp"
+            plan = ["heapbase " + rng.choice(HEAP_BASES), "fill %s %s" % rng.choice(FILLS)]
+            ak = rng.loguniform(1, 400) if route == "exe" else rng.loguniform(200, 20000)
+            plan.append("audit alloc %d %d %d" % (ak, rng.below(ak), 3000 if route == "exe" else 300))
+            if rng.chance(2, 3):
+                gk = rng.loguniform(20, 5000) if route == "exe" else rng.loguniform(5000, 200000)
+                plan += ["gc per %d %d" % (gk, rng.below(gk)), "gc cap %d" % (2000 if route == "exe" else 150),
+                         "audit every %d" % rng.choice([1, 1, 3]), "audit before"]
+            out.append({"program": "p%02d.as" % g, "source": text, "q": q, "route": route, "plan": plan})
+    return out
+
+
 def violation_key(res, variant):
     if res.get("cls") == "audit" and res.get("assertion"):
         return "audit:" + res["assertion"]
@@ -318,6 +371,13 @@ def main(argv):
     with vsim.Scratch("c10") as scratch:
         if replay:
             rp = __import__("json").load(open(replay))
+            if rp.get("program"):
+                v = program_world(binfo, scratch, rp["program"], rp["source"].encode("latin-1"), rp["q"], rp["route"], rp["plan"])
+                vsim.say("replay: program-driven history: %s" % (v,))
+                if v[0]:
+                    vsim.say("VIOLATION property=%s replay=%s" % (PID, replay))
+                    return 1
+                return 0
             r = run_history(binfo, scratch, rp["variant"], rp["plan"], rp["history"])
             vsim.say("replay: kind=%s class=%s %s" % (r["kind"], r.get("cls"), r.get("detail", "")))
             if r["kind"] == "VIOLATION":
@@ -443,6 +503,34 @@ def main(argv):
                 ops_seen[o] = ops_seen.get(o, 0) + 1
             if r.get("stats", {}).get("allocs", 0) >= 2:
                 distinct.add(r["log_hash"])
+        # ---- program-driven histories (audit oracle) -----------------------------------------
+        pcases = program_cases(seed, tier)
+        pres = vsim.pmap(lambda c: program_world(binfo, scratch, c["program"], c["source"], c["q"], c["route"], c["plan"]), pcases) \
+            if not budget.over() or True else []
+        paud = 0
+        pby = {}
+        for c, (v, d) in zip(pcases, pres):
+            m_ = re.search(r"audits=(\d+)", d)
+            paud += int(m_.group(1)) if m_ else 0
+            if v:
+                pby.setdefault("program:%s:%s:%s" % (c["route"], v, re.sub(r"\s+", "", d)[:80]), []).append((c, d))
+        for key in sorted(pby):
+            text = out.classify(key)
+            if text is not None:
+                out.known.append({"key": key, "text": text})
+                continue
+            c, d = pby[key][0]
+            v2, d2 = program_world(binfo, scratch, c["program"], c["source"], c["q"], c["route"], c["plan"])
+            if not v2:
+                out.nondet.append("program-driven history %s: violation did not reproduce" % c["program"])
+                continue
+            rpp = vsim.write_replay(PID, "seed%d-%s-%s" % (seed, c["program"][:-3], c["route"]), {
+                "property": PID, "seed": seed, "program": c["program"], "source": c["source"].decode("latin-1"), "q": c["q"],
+                "route": c["route"], "plan": c["plan"], "key": key, "detail": d2, "source_key": binfo["key"]})
+            out.violations.append({"key": key, "cls": "audit", "detail": "program-driven history %s (%s): %s" % (c["program"], c["route"], d2), "replay": rpp})
+        for d_, _m in _EXE.values():
+            if d_:
+                vsim.cleanup_world(d_)
         names = ["merge-next", "merge-prev", "split", "frontier-discarded", "tree-entry-reused", "os-backoff",
                  "pgmap-slide", "foreign-pages", "fixed-section-returned", "mixed-section-returned",
                  "sweep-merge", "natural-collection", "inner-page-alloc", "p13", "p14", "p15"]
@@ -463,6 +551,9 @@ def main(argv):
             "reach_probes": dict((names[k], v) for k, v in sorted(probes.items())),
             "reach_probes_zero": [names[k] for k in range(13) if not probes.get(k)],
             "op_kinds_histories": ops_seen,
+            "program_driven_histories": {"worlds": len(pcases), "programs": len(set(c["program"] for c in pcases)),
+                                         "audits_executed": paud, "violating": sum(len(v) for v in pby.values()),
+                                         "inconclusive_or_not_built": sum(1 for v, d in pres if not v and not d.startswith("audits="))},
             "determinism_reexecuted": len(redo_ix), "determinism_mismatches": nondet,
             "violating_histories": len(viol), "violation_keys": sorted(by_key),
             "known_findings_matched": [k["key"] for k in out.known],
